@@ -333,9 +333,14 @@ static RunResult runScript(const Case &c, long idx, bool judge)
   g_randomDelayPermille.store(0);
   // wait (bounded) for the loop function to return so that no stale thread logs into the next script
   if (!g_noLog && c.mode != 3) {
+    // (after two loops of this process did not show their exit point, later ones are given
+    // 20 ms only: stale events are filtered by script id anyway, and a tree that leaks every
+    // TASK loop must not cost 2 s per script)
+    static int notSeen = 0;
+    const double patience = notSeen >= 2 ? 0.02 : 2.0;
     double t0   = vh::now();
     bool exited = false;
-    while (!exited && vh::now() - t0 < 2.0) {
+    while (!exited && vh::now() - t0 < patience) {
       uint32_t n = g_seq.load();
       if (n > LOGCAP)
         n = LOGCAP;
@@ -347,8 +352,10 @@ static RunResult runScript(const Case &c, long idx, bool judge)
       if (!exited)
         sleepUs(50);
     }
-    if (!exited)
+    if (!exited) {
+      ++notSeen;
       vh::count(c.launch == AsyncLoop::THREAD ? "loop_exit_point_not_seen_thread" : "loop_exit_point_not_seen_task");
+    }
   }
   sleepUs(c.launch == AsyncLoop::THREAD ? 0 : 100);
   uint32_t n = g_seq.load();
@@ -595,6 +602,14 @@ int main(int argc, char **argv)
     }
     const Case &c = g_cases[k];
     RunResult rr  = runScript(c, k, !tsan);
+    // every R2 expiry costs seconds: a tree on which the loop systematically fails to run must not
+    // take hours - after a few of them this child stops (its violations are on record)
+    static int r2Expiries = 0;
+    if (rr.r2Timeout && ++r2Expiries >= 4) {
+      if (!rr.lostWakeupWitnessed)
+        vh::violation("C03:R2:no-body-after-start-returned", "no body began within 5 s after start() returned (4th expiry in this process; remaining scripts of the batch skipped)", describeCase(c, k));
+      vh::abandonChild();
+    }
     if (rr.r2Timeout && !rr.lostWakeupWitnessed) {
       // bounded liveness: a watchdog expiry alone is inconclusive -> re-run the same schedule once
       RunResult r2 = runScript(c, k, true);
